@@ -7,6 +7,7 @@ import (
 	"errors"
 	"fmt"
 	"hash/crc32"
+	"io"
 	"os"
 	"path"
 	"path/filepath"
@@ -231,6 +232,8 @@ func c14RunImpl(c corr.Case) []string {
 				return "no-archive"
 			}
 			switch t[0] {
+			case "seekcopy":
+				return c14SeekCopy(fs, curEnts, arg(1), atoi64(t[2]))
 			case "concwalk":
 				return c14ConcWalk(curKind, curEnts)
 			case "stat":
@@ -808,7 +811,7 @@ func c14Walk(c corr.Case, impl []string, stopAtFailure bool) (*c14View, string, 
 		if v == nil {
 			continue
 		}
-		if t[0] == "concwalk" {
+		if t[0] == "concwalk" || t[0] == "seekcopy" {
 			if strings.HasPrefix(impl[i], "fail") && stopAtFailure {
 				return v, impl[i], i
 			}
@@ -891,6 +894,47 @@ func c14ConcWalk(kind string, ents []c14Ent) string {
 				return fmt.Sprintf("fail: goroutine %d of 16 walking the archive at the same time sees %q, one goroutine alone sees %q", g, got[g], want)
 			}
 		}
+	}
+	return "ok"
+}
+
+// c14SeekCopy: io.Copy out of a handle (io.WriterTo if the handle has it, Read until io.EOF otherwise) after a Seek
+// delivers the entry's bytes from that position to the end, and leaves the handle at the end.
+func c14SeekCopy(fs afero.Fs, ents []c14Ent, name string, off int64) string {
+	var want []byte
+	found := false
+	for _, e := range ents {
+		if !e.dir && filepath.Clean("/"+e.name) == filepath.Clean("/"+name) {
+			want, found = e.data, true
+		}
+	}
+	if !found {
+		return "skipped: no such entry"
+	}
+	f, err := fs.Open(name)
+	if err != nil {
+		return "fail: open: " + err.Error()
+	}
+	defer f.Close()
+	if off > 0 {
+		f.Read(make([]byte, 3)) // something has been read (and buffered) before
+	}
+	if _, err := f.Seek(off, io.SeekStart); err != nil {
+		return "fail: seek: " + err.Error()
+	}
+	var buf bytes.Buffer
+	_, err = io.Copy(plainWriter{&buf}, f)
+	tail := []byte{}
+	if off < int64(len(want)) {
+		tail = want[off:]
+	}
+	if err != nil || !bytes.Equal(buf.Bytes(), tail) {
+		return fmt.Sprintf("fail: Seek(%d) then io.Copy out of %s delivers %d bytes (err %v), the entry has %d bytes from there", off, name, buf.Len(), err, len(tail))
+	}
+	pos, err := f.Seek(0, io.SeekCurrent)
+	n, _ := f.Read(make([]byte, 4))
+	if err != nil || (off <= int64(len(want)) && pos != int64(len(want))) || n != 0 {
+		return fmt.Sprintf("fail: after the copy the handle stands at %d (err %v) and reads %d more bytes; the entry has %d bytes", pos, err, n, len(want))
 	}
 	return "ok"
 }
@@ -1015,6 +1059,15 @@ func c14Corpus() []corr.Case {
 		dotted := []c14Ent{dir("./"), file("./main.go", "package main"), dir("./docs/"), file("./docs/x.md", "x"), file("./docs/deep/y", "yy")}
 		cc := c14Case("tar", dotted, "open "+hp("/"), "h.readdirnames 0 -1", "open "+hp("/"), "h.readdir 1 1", "h.readdir 1 1", "h.readdir 1 -1", "stat "+hp("/"), "stat "+hp("main.go"),
 			"open "+hp("docs"), "h.readdirnames 2 -1", "stat "+hp("."), "open "+hp("docs/deep/y"), "h.read 3 8")
+		cc.Lines[0] = "o" + cc.Lines[0]
+		cs = append(cs, cc)
+	}
+	// io.Copy out of a handle after a Seek
+	for _, k := range c14Kinds {
+		bigd := c14GenData(9, 20000)
+		ents := []c14Ent{file("a.txt", "hello world"), {name: "d/big.bin", data: bigd}, file("d/empty", "")}
+		cc := c14Case(k, ents, "seekcopy "+hp("a.txt")+" 0", "seekcopy "+hp("a.txt")+" 4", "seekcopy "+hp("d/big.bin")+" 5000", "seekcopy "+hp("d/big.bin")+" 19999", "seekcopy "+hp("d/big.bin")+" 20000",
+			"seekcopy "+hp("d/empty")+" 0", "seekcopy "+hp("d/big.bin")+" 0")
 		cc.Lines[0] = "o" + cc.Lines[0]
 		cs = append(cs, cc)
 	}
